@@ -245,8 +245,23 @@ class VTKWriter:
         allFieldsAreEmpty = not self.cellFields
         if not allFieldsAreEmpty:
             ncells = self.mesh.conns.shape[0]
-            vtkFile.write('CELL_DATA {}\n'.format(ncells))
-            self._write_out_all_fields_in_dict(self.cellFields, vtkFile)
+            nedges = self.contactEdges.shape[0]
+
+            # contact edges are written as cells too, so every cell
+            # array needs a (default) record for each of them
+            fieldsToWrite = {}
+            for field in self.cellFields:
+                fieldRecord = self.cellFields[field]
+                for e in range(nedges):
+                    uNew = np.vstack( (fieldRecord.data,
+                                       default_values(fieldRecord.fieldType, fieldRecord.dataType)) )
+                    fieldRecord = self.VTKFieldRecord(uNew,
+                                                      fieldRecord.fieldType,
+                                                      fieldRecord.dataType)
+                fieldsToWrite[field] = fieldRecord
+
+            vtkFile.write('CELL_DATA {}\n'.format(ncells + nedges))
+            self._write_out_all_fields_in_dict(fieldsToWrite, vtkFile)
         
         
     def _write_out_all_fields_in_dict(self, fieldDict, vtkFile):
